@@ -32,7 +32,7 @@ pub fn gen_octets(cx: &mut Cx, label: &str, tag: u64) -> Opt {
         0 => None,
         1 => Some(Vec::new()),
         2 => { let n = 1 + cx.ch.choose("oct_len", 40) as usize; Some(bytes_for(cx.run_seed, label.as_bytes(), tag, n)) }
-        3 => { let n = [255usize, 256, 257, 300][cx.ch.choose("oct_len_b", 4) as usize]; Some(bytes_for(cx.run_seed, label.as_bytes(), tag, n)) }
+        3 => { let n = [255usize, 256, 257, 300, 4095, 4096, 4097, 6000][cx.ch.choose("oct_len_b", 8) as usize]; Some(bytes_for(cx.run_seed, label.as_bytes(), tag, n)) }
         4 => Some(bytes_for(cx.run_seed, label.as_bytes(), tag, 16)),
         _ => Some(bytes_for(cx.run_seed, label.as_bytes(), tag, 65536 + cx.ch.choose("oct_len_big", 3) as usize)),
     }
@@ -40,14 +40,17 @@ pub fn gen_octets(cx: &mut Cx, label: &str, tag: u64) -> Opt {
 
 pub fn gen_count(cx: &mut Cx, label: &str, small_only: bool) -> usize {
     // index 0 = simplest
-    let rare = if small_only { 0 } else { 1 };
+    // small_only (the corrupting checks deliver ~100 frames per session): the sizes around 32, 64
+    // and 128 at a lower rate and those around 256 rarely, never the huge ones
     let huge = if cx.thorough && !small_only { 1 } else { 0 };
-    match cx.ch.weighted(label, &[10, 3, 6, 2 * rare, huge]) {
+    let (w_edge, w_256) = if small_only { (2, 2) } else { (3, 2) };
+    match cx.ch.weighted(label, &[10, 3, 6, w_256, huge, w_edge]) {
         0 => cx.ch.choose("count_small", 7) as usize,            // 0..=6
         1 => 0,
         2 => 7 + cx.ch.choose("count_mid", 11) as usize,          // 7..=17
-        3 => [255usize, 256, 257][cx.ch.choose("count_256", 3) as usize],
-        _ => 1000 + cx.ch.choose("count_huge", 2000) as usize,
+        3 => [255usize, 256, 257, 258][cx.ch.choose("count_256", 4) as usize],
+        4 => 1000 + cx.ch.choose("count_huge", 2000) as usize,
+        _ => [31usize, 32, 33, 63, 64, 65, 127, 128, 129][cx.ch.choose("count_edge", 9) as usize],
     }
 }
 
@@ -66,8 +69,12 @@ pub fn gen_message(cx: &mut Cx, tag: u64) -> Bytes {
 }
 
 /// L messages; unique per (run, tag base, index) unless a duplicate is requested on purpose
+/// the list lengths around 32 / 64 / 128 / 256, most telling first; the corrupting checks walk
+/// through them on every fourth run (a batch of 52 runs covers them all)
+pub const EDGE_SIZES: [usize; 13] = [128, 257, 64, 32, 129, 256, 33, 65, 127, 258, 63, 31, 255];
+
 pub fn gen_messages(cx: &mut Cx, label: &str, tag_base: u64, small_only: bool) -> Vec<Bytes> {
-    let l = gen_count(cx, label, small_only);
+    let l = if small_only && cx.run_index % 4 == 3 { cx.count("probe.list_length_at_a_power_of_two_edge"); EDGE_SIZES[cx.ch.forced("edge_size", 13, cx.run_index / 4) as usize] } else { gen_count(cx, label, small_only) };
     let mut v: Vec<Bytes> = Vec::with_capacity(l);
     for i in 0..l {
         if i > 0 && l <= 20 && cx.ch.chance("dup_msg", 1, 10) {
